@@ -26,7 +26,7 @@ What is enumerated (exhaustively within the bound, no sampling):
               every byte quick; every bit thorough), top-level list / null / number / string / bool, every member
               replaced by every entry of the bad-value catalogue of its datatype (wrong kind, out of range), unknown
               keys, stale keys, missing keys; with and without a configured value.
-  roundtrip   every datatype of the type catalogue (depth <= 2 quick, <= 3 thorough) x every valid value, set by a
+  roundtrip   every datatype of the type catalogue (depth <= 3; quick / thorough catalogue) x every valid value, set by a
               client (wire form) and by the driver (native form) -> saved -> loaded by a fresh node.
 
 Oracle (from the statement, nothing more):
@@ -56,6 +56,7 @@ Oracle calibration (weaker readings taken, see also the report to the lead):
   * Errors are injected into saving only (the quantifier says "of every save"): not into reading the file.
   * An out-of-range / wrong-kind stored member counts as unusable (the code's own comment: "ignore invalid persistent
     data (in case parameters have changed)"); the double tolerance of the reference model applies.
+  * A stored struct lacking optional members may be taken as it is or completed from the default value.
   * The key of a non-persistent parameter in the file must not prevent start-up; whether it is ignored is not judged.
 Crash model: process crash.  Power-loss reordering of unsynced pages is not modelled.
 """
@@ -270,7 +271,7 @@ def recover(module_cfg, key, image, part=None, init=True):
     thread would, and report ('ok', values, wire values) or ('fail', what, text).  Deterministic in (key, image):
     cached per process."""
     cache = env()['rec']
-    ck = (key, image)
+    ck = (key, image, init)
     res = cache.get(ck)
     if res is not None:
         if part is not None:
@@ -295,8 +296,6 @@ def recover(module_cfg, key, image, part=None, init=True):
     if part is not None:
         part.extra['recoveries'] += 1
         part.transitions += len(fs.log)
-    if len(cache) > 200000:
-        cache.clear()
     cache[ck] = res
     return res
 
@@ -739,7 +738,7 @@ class HistoryCheck:
 # shards
 
 def bounds(tier):
-    return dict(L=2 if tier == 'quick' else 3, rt_depth=2 if tier == 'quick' else 3,
+    return dict(L=2 if tier == 'quick' else 3, rt_depth=3,
                 flipbits=(0, 5) if tier == 'quick' else tuple(range(8)))
 
 
@@ -799,6 +798,9 @@ def shard_construct(shard):
             for i in hc.fault_points(labels):
                 hc.check_fault(i)
             hc.verify_determinism(range(0, 400, 37) if core.TIER == 'quick' else range(0, 2000, 11))
+            if init == 'file+stale-tmp' and not steps:
+                part.sample({'history': hc.describe(), 'fs_operations': [op.brief() for op in hc.tr.ops],
+                             'crash_cases': faultx.count_crash_cases(hc.tr)})
             # S4 / start-up values: the started node holds the configured value, else the stored one, else the default
             check_startup_values(part, hc)
     return part
@@ -863,6 +865,8 @@ def judge_entry(spec, entry, held, default, known_usable=False):
     (entry taken), or it is the default (entry ignored; not acceptable for an entry known to be usable)"""
     try:
         res = R.judge(spec, entry, freeze(held), None, 'wire')
+        if res is not None and R.judge(spec, entry, freeze(held), freeze(default), 'wire') is None:
+            res = None          # a struct entry lacking optional members may be completed from the default
     except Exception as e:      # the reference model met something it cannot look at
         res = ('X', f'{type(e).__name__}: {e}', spec[0])
     if res is None:
@@ -932,7 +936,7 @@ def corruptions(kind, tier):
             yield f'stale-file-of-{other}', 'stale', content(oimg)
 
 
-def corruption_image(item, base_dirs):
+def corruption_image(item, _unused=None):
     name, _cls, data = item
     if data == 'nodir':
         return EMPTY
@@ -1045,42 +1049,48 @@ def check_roundtrip(part, spec, only=None):
             m.writeInitParams()
             conn = node.connect()
             jobs = [('client', 'p', w) for w in V.valid(spec, 'wire')] + [('driver', 'r', d) for d in V.valid(spec, 'drv')]
-            for path, x, v in jobs:
-                case = {'sub': 'roundtrip', 'spec': sj, 'path': path, 'value': V.enc(v)}
-                if only is not None and (only['path'] != path or repr(V.dec(only['value'])) != repr(v)):
-                    continue
-                part.evaluations += 1
-                part.states += 1
+            scratch = core.Part()
+            for j, (path, x, v) in enumerate(jobs):
+                # the jobs run on one live module, one after the other: a replay re-executes the jobs before the recorded one
+                case = {'sub': 'roundtrip', 'spec': sj, 'job': j, 'path': path, 'value': V.enc(v)}
+                pt = part
+                if only is not None:
+                    if j > only['job']:
+                        break
+                    if j < only['job']:
+                        pt = scratch
+                pt.evaluations += 1
+                pt.states += 1
                 nops = len(fs.log)
                 previous = freeze(getattr(m, x))      # a partial struct sent by a client is merged with this
                 if path == 'client':
                     try:
                         line = f'change m:_p {json.dumps(v)}'
                     except (TypeError, ValueError):
-                        part.outcomes[f'roundtrip:{top}:client:not-json'] += 1
+                        pt.outcomes[f'roundtrip:{top}:client:not-json'] += 1
                         continue
                     rep = node.request(conn, line)
                     if rep[0] != 'changed':
-                        part.outcomes[f'roundtrip:{top}:client:refused'] += 1
+                        pt.outcomes[f'roundtrip:{top}:client:refused'] += 1
                         continue
                 else:
                     try:
                         setattr(m, 'r', v)
                     except Exception:
-                        part.outcomes[f'roundtrip:{top}:driver:refused'] += 1
+                        pt.outcomes[f'roundtrip:{top}:driver:refused'] += 1
                         continue
                 if len(fs.log) > nops:
-                    part.nontrivial += 1
-                part.transitions += len(fs.log) - nops
+                    pt.nontrivial += 1
+                pt.transitions += len(fs.log) - nops
                 live, livewire = read_values(node, names)
                 image = fs.image()
                 data = content(image)
-                with_rec = _rt_recover(cfg, image, names, part)
-                part.traces += 1
+                with_rec = _rt_recover(cfg, image, names, pt)
+                pt.traces += 1
                 where = f'{T.sstr(spec)} {x} set by {path} to {v!r}: file {data!r}'
                 if with_rec[0] != 'ok':
-                    part.outcomes[f'roundtrip:{top}:{path}:reload-fails'] += 1
-                    part.violation(f'C17:roundtrip:{top}:{path}:reload-{norm(with_rec[1])}', case,
+                    pt.outcomes[f'roundtrip:{top}:{path}:reload-fails'] += 1
+                    pt.violation(f'C17:roundtrip:{top}:{path}:reload-{norm(with_rec[1])}', case,
                                    f'{where}: a node constructed on it does not start: {with_rec[1]} {with_rec[2]}')
                     continue
                 vals, wire = with_rec[1], with_rec[2]
@@ -1098,11 +1108,21 @@ def check_roundtrip(part, spec, only=None):
                     res = R.judge(spec, v, freeze(vals['p']), previous, 'wire')
                     if res:
                         bad = (f'restored-value-does-not-denote-what-was-sent:{res[0]}:{norm(res[1])}', res[1])
-                part.outcomes[f'roundtrip:{top}:{path}:{"ok" if not bad else bad[0]}'] += 1
+                if bad and bad[0] in ('value-not-equal', 'exported-value-differs'):
+                    # diagnosis: did the automatic save die silently (callback exceptions are swallowed)?
+                    try:
+                        m.saveParameters()
+                    except OSError:
+                        pass
+                    except Exception as e:
+                        bad = (f'save-raises-{type(e).__name__}',
+                               f'{bad[1]}; an explicit saveParameters() raises {e!r} - the automatic save swallowed it and every '
+                               f'later save of this module fails the same way')
+                pt.outcomes[f'roundtrip:{top}:{path}:{"ok" if not bad else bad[0]}'] += 1
                 if bad:
-                    part.violation(f'C17:roundtrip:{top}:{path}:{bad[0]}', case, f'{where}: {bad[1]}')
-                elif part.evaluations % 499 == 1:
-                    part.sample({'type': T.sstr(spec), 'set_by': path, 'value': V.enc(v), 'file': repr(data)[:100],
+                    pt.violation(f'C17:roundtrip:{top}:{path}:{bad[0]}', case, f'{where}: {bad[1]}')
+                elif pt.evaluations % 499 == 1:
+                    pt.sample({'type': T.sstr(spec), 'set_by': path, 'value': V.enc(v), 'file': repr(data)[:100],
                                  'restored': repr(vals)[:80]})
         finally:
             node.close()
@@ -1136,7 +1156,7 @@ def shard_roundtrip(shard):
 
 
 def shard_fn(shard):
-    env()
+    env()['rec'] = {}     # recovery cache per shard: counters do not depend on which worker ran which shard before
     kinds()
     try:
         return {'history': shard_history, 'construct': shard_construct, 'corrupt': shard_corrupt,
@@ -1147,6 +1167,8 @@ def shard_fn(shard):
 
 def healthy_fails(part, e):
     part.evaluations += 1
+    part.states += 1
+    part.transitions += 1
     part.traces += 1
     part.outcomes['base-history-fails'] += 1
     part.violation(f'C17:roundtrip:healthy-disk:base-history-fails:{norm(e.what)}', {'sub': 'base', 'kind': e.kind},
@@ -1223,13 +1245,18 @@ def _replay(case, part):
         elif chk == 'startup':
             check_startup_values(part, hc)
         elif chk == 'fault':
+            if case['op'] >= len(hc.tr.ops):
+                raise core.Inconclusive('replay diverged: the recorded operation index is beyond the operation log of this tree')
             hc.check_fault(case['op'])
         elif chk == 'crash':
             cr = case['crash']
             key = (cr['op'], tuple(sorted((int(k), v) for k, v in cr['choice'].items())), cr['torn'])
             # the hard way first: re-execute with a real crash, then judge exactly that image
-            img = faultx.crash_image(hc.scenario(), hc.make_fs, cr['op'], {int(k): v for k, v in cr['choice'].items()},
-                                     cr['torn'], expect_ops=hc.tr.ops)
+            try:
+                img = faultx.crash_image(hc.scenario(), hc.make_fs, cr['op'], {int(k): v for k, v in cr['choice'].items()},
+                                         cr['torn'], expect_ops=hc.tr.ops)
+            except faultx.NonDeterministic as e:
+                raise core.Inconclusive(f'replay diverged: {e}') from None
             labels = {cc.label for cc in faultx.crash_cases(hc.tr) if cc.key() == key}
             for cc in faultx.crash_cases(hc.tr, labels):
                 if cc.key() == key and cc.image != img:
